@@ -154,6 +154,13 @@ def _init_handle(pkg):
     return pkg.expanded("InitCommand", "handle", keep=("option", "validate"))
 
 
+def _example_handle(pkg):
+    """ExampleCommand.handle with the helpers of the class / the module it may have been split into put back (one option value composed
+    by a helper method, ..); the primitives of the command framework (self.option / choice / confirm / call / line) are not methods of
+    the package and stay calls"""
+    return pkg.expanded("ExampleCommand", "handle", keep=("option", "choice", "confirm", "call", "line", "argument"))
+
+
 def _alias_closure(fn, name):
     """the local `name` and every local it is a plain alias of (`name = other`, assigned once)"""
     out = [name]
@@ -251,7 +258,7 @@ def _example_flow(pkg):
     from ..valueflow import Flow
     cache = pkg.__dict__.setdefault("_example_flow", {})
     if "fl" not in cache:
-        cache["fl"] = Flow(pkg.method("ExampleCommand", "handle"), EXAMPLE)
+        cache["fl"] = Flow(_example_handle(pkg), EXAMPLE)
     return cache["fl"]
 
 
@@ -1021,7 +1028,7 @@ def _r2(ctx, pkg):
 
 
 def _r3(ctx, pkg):
-    h = pkg.method("ExampleCommand", "handle")
+    h = _example_handle(pkg)
     ctx.saw(EXAMPLE, "ExampleCommand.handle")
     modvar = next((n.targets[0].id for n in ast.walk(h) if isinstance(n, ast.Assign) and isinstance(n.targets[0], ast.Name) and "import_module" in ast.unparse(n.value)), "examplemod")
     attrs = sorted({n.attr for n in ast.walk(h) if isinstance(n, ast.Attribute) and isinstance(n.value, ast.Name) and n.value.id == modvar})
@@ -1147,7 +1154,7 @@ OPTION_SEPS = {"element-replacement": {",", ":"}, "shielding": {",", ":"}, "bind
 
 
 def _r4_r6_r7(ctx, pkg):
-    eh = pkg.method("ExampleCommand", "handle")
+    eh = _example_handle(pkg)
     ih = _init_handle(pkg)
     efl = _example_flow(pkg)
     wv = _writer_values(efl)
@@ -1327,7 +1334,7 @@ def _r5_example(ctx, pkg, table, allm):
     whatever the case list is spelled as (a literal list, a comprehension over a class-level table, ...) and however solver / device /
     method are derived from the chosen case, every case must end in a method of init.py's table and yield a combination the table allows."""
     from ..consteval import fold, run, NotConstant, class_attr_resolver
-    eh = pkg.method("ExampleCommand", "handle")
+    eh = _example_handle(pkg)
     attr = class_attr_resolver(pkg, "ExampleCommand")
     # by role: the list handed to self.choice(<question>, <list>, ..) -- the same local that `--select` indexes
     lst = next((c.args[1] for c in ast.walk(eh) if isinstance(c, ast.Call) and isinstance(c.func, ast.Attribute) and c.func.attr == "choice" and len(c.args) >= 2), None)
